@@ -20,16 +20,9 @@ type c07Case struct {
 	CRC      bool   `json:"crc"`
 }
 
-// c07Judge checks both directions for one input; returns class, detail.
-func c07Judge(in []byte, crc bool, identical *atomic.Int64) (string, string) {
-	// library -> reference
-	out, cerr, pmsg, site := libEncode(in, crc, nil, -1)
-	if pmsg != "" {
-		return "lib-encode-panic|" + site, pmsg
-	}
-	if cerr != nil {
-		return "lib-encode-error", cerr.Error()
-	}
+// c07JudgeStream judges one stream produced by the library for input in: canonical header, and the
+// reference decoder reproduces the input.
+func c07JudgeStream(out, in []byte, crc bool) (string, string) {
 	raw := out
 	if crc {
 		if len(out) < 6 {
@@ -52,6 +45,62 @@ func c07Judge(in []byte, crc bool, identical *atomic.Int64) (string, string) {
 	}
 	if !bytes.Equal(res.Data, in) {
 		return "ref-decodes-lib-stream-differently", fmt.Sprintf("ref got %q", core.Trunc(string(res.Data), 80))
+	}
+	return "", ""
+}
+
+// c07Judge checks both directions for one input; returns class, detail.
+func c07Judge(in []byte, crc bool, identical *atomic.Int64) (string, string) {
+	// library -> reference
+	out, cerr, pmsg, site := libEncode(in, crc, nil, -1)
+	if pmsg != "" {
+		return "lib-encode-panic|" + site, pmsg
+	}
+	if cerr != nil {
+		return "lib-encode-error", cerr.Error()
+	}
+	if c, d := c07JudgeStream(out, in, crc); c != "" {
+		return c, d
+	}
+	// library -> reference again, with the input handed to the Writer in several Write calls (the
+	// first one shorter than, equal to and longer than the 60-byte lookahead, byte-wise, 7-wise, and
+	// preceded by an empty Write): the stream must not depend on it
+	var plans [][]int
+	for _, c := range []int{1, 10, 59, 60, 61, len(in) / 2} {
+		if c > 0 && c < len(in) {
+			plans = append(plans, []int{c})
+		}
+	}
+	for _, every := range []int{1, 7} {
+		if len(in) > every && len(in) <= 600 {
+			var cuts []int
+			for c := every; c < len(in); c += every {
+				cuts = append(cuts, c)
+			}
+			plans = append(plans, cuts)
+		}
+	}
+	plans = append(plans, nil) // with zeroAt 0
+	for pi, cuts := range plans {
+		zeroAt := -1
+		if pi == len(plans)-1 {
+			zeroAt = 0
+		}
+		out2, cerr, pmsg, site := libEncode(in, crc, cuts, zeroAt)
+		tag := fmt.Sprintf(" (Write calls cut at %v, empty Write first: %v)", core.Trunc(fmt.Sprint(cuts), 60), zeroAt == 0)
+		if pmsg != "" {
+			return "lib-encode-panic|" + site, pmsg + tag
+		}
+		if cerr != nil {
+			return "lib-encode-error", cerr.Error() + tag
+		}
+		if bytes.Equal(out2, out) {
+			continue // judged above
+		}
+		// a stream that differs from the single-Write one is C06's business; here it must be canonical too
+		if c, d := c07JudgeStream(out2, in, crc); c != "" {
+			return c + "|segmented-writes", d + tag
+		}
 	}
 	// reference -> library
 	var enc []byte
